@@ -12,6 +12,7 @@ CONSTANTS
   Aborts = TRUE
   SendLast = FALSE
   Record = TRUE
+  OnlyBad = FALSE
 INIT Init
 NEXT Next
 CHECK_DEADLOCK FALSE
